@@ -192,6 +192,8 @@ type ordNet struct {
 	pendReq   map[string]uint64 // "<to>/<fwdID>" -> origin
 	stats     map[string]int64
 	self      string
+	sentLately map[uint64]int64
+	lag        int
 	timed     bool
 	typ       string
 	n         int
@@ -201,8 +203,30 @@ type ordNet struct {
 
 func (nw *ordNet) count(k string) { nw.mu.Lock(); nw.stats[k]++; nw.mu.Unlock() }
 
+// busiest returns the replica that sent most messages lately - with raft that is the leader
+// (append / heartbeat fan-out); only used to aim faults, never for a verdict.
+func (nw *ordNet) busiest() uint64 {
+	nw.mu.Lock()
+	defer nw.mu.Unlock()
+	var best uint64
+	var bestN int64 = -1
+	for id, n := range nw.sentLately {
+		if n > bestN {
+			best, bestN = id, n
+		}
+	}
+	for id := range nw.sentLately {
+		nw.sentLately[id] = 0
+	}
+	return best
+}
+
 func (nw *ordNet) route(from uint64, m *wireMsg) {
 	nw.mu.Lock()
+	if nw.sentLately == nil {
+		nw.sentLately = map[uint64]int64{}
+	}
+	nw.sentLately[from]++
 	iso := nw.isolated[from] || nw.isolated[m.To]
 	drop := nw.rng.Float64() < nw.dropP
 	dup := nw.rng.Float64() < nw.dupP
@@ -258,6 +282,9 @@ func (nw *ordNet) spawn(id uint64, extraEnv []string, extraArgs ...string) error
 	args := []string{"ord-node", "-id", fmt.Sprint(id), "-n", fmt.Sprint(nw.n), "-dir", c.dir, "-type", nw.typ, "-batch", fmt.Sprint(nw.batch), "-inc", fmt.Sprint(inc)}
 	if nw.timed {
 		args = append(args, "-timed")
+	}
+	if nw.lag > 0 {
+		args = append(args, "-lag", fmt.Sprint(nw.lag))
 	}
 	args = append(args, extraArgs...)
 	cmd := exec.Command(nw.self, args...)
@@ -381,6 +408,7 @@ func ordScenario(w *vlog.W, a *wargs, id int, rng *rand.Rand, viol func(sig, det
 	if rng.Intn(2) == 0 {
 		nw.dropP, nw.dupP = 0.03, 0.03
 	}
+	nw.lag = []int{0, 5, 20, 60}[rng.Intn(4)]
 	nw.timed = rng.Intn(4) == 0
 	if nw.timed {
 		w.Count("scenario:timed-block-generation", 1)
@@ -452,8 +480,17 @@ func ordScenario(w *vlog.W, a *wargs, id int, rng *rand.Rand, viol func(sig, det
 			events["resubmit"]++
 		}
 		switch x := rng.Intn(100); {
-		case x < 4 && n > 1: // isolate a node for a while (the leader is hit with probability 1/n)
+		case x < 5 && n > 1: // isolate a node for a while: half of the time the (presumed) leader, right after a burst
 			victim := uint64(1 + rng.Intn(n))
+			if rng.Intn(2) == 0 {
+				if b := nw.busiest(); b != 0 {
+					victim = b
+					for k := 0; k < 2+rng.Intn(5); k++ {
+						submit() // entries that are in flight when the leader disappears
+					}
+					events["partition-of-busiest"]++
+				}
+			}
 			nw.mu.Lock()
 			nw.isolated[victim] = true
 			nw.mu.Unlock()
@@ -637,7 +674,7 @@ func ordScenario(w *vlog.W, a *wargs, id int, rng *rand.Rand, viol func(sig, det
 		ev = append(ev, k)
 	}
 	sort.Strings(ev)
-	return fmt.Sprintf("%s|b%d|loss%v|timed%v|%s", kind, nw.batch, nw.dropP > 0, nw.timed, strings.Join(ev, ",")), len(ev) > 0
+	return fmt.Sprintf("%s|b%d|loss%v|timed%v|lag%d|%s", kind, nw.batch, nw.dropP > 0, nw.timed, nw.lag, strings.Join(ev, ",")), len(ev) > 0
 }
 
 func ord20Workload(args []string) int {
